@@ -4512,10 +4512,10 @@ class LocationMatcher(SectionMatcher):
             ignore = section.get("ignore_parents", None)
             if ignore is not None:
                 ignore = ui.bool_from_string(ignore)
+            # The section itself is valid, only its parents are ignored
+            yield self.store, section
             if ignore:
                 break
-            # Finally, we have a valid section
-            yield self.store, section
 
 
 # FIXME: _shared_stores should be an attribute of a library state once a
